@@ -58,6 +58,15 @@ func HarnessC14L3() {
 	if err != nil {
 		zzvrt.Unreachable("New failed")
 	}
+	explicit := ""
+	if zzvrt.Param("EXTID", 0) == 1 && zzvrt.Bool() {
+		// one sibling names its Go field itself (the goJSONSchema.identifier extension) -- with the
+		// very name another sibling's key normalises to: the two must still get distinct fields
+		k := zzvrt.Choice(len(names))
+		id := g.caser.Identifierize(names[(k+1)%len(names)])
+		props[names[k]].GoJSONSchemaExtension = &schemas.GoJSONSchemaExtension{Identifier: &id}
+		explicit = " explicit-identifier:" + names[k] + "=" + id
+	}
 	if err := g.addFile("root.json", sch); err != nil {
 		zzvrt.Note(err.Error())
 		zzvrt.Check("C14.L3.generates", false)
@@ -65,14 +74,16 @@ func HarnessC14L3() {
 	}
 	src := string(g.Sources()["root.go"])
 	zzvrt.Emit("root.go", src)
-	zzvrt.Cover("names:" + strings.Join(names, ","))
+	zzvrt.Cover("names:" + strings.Join(names, ",") + explicit)
 	h := zzvrt.Stage2(src)
 	if !zzvrt.S2OK(h) {
 		zzvrt.Note(zzvrt.S2Errors(h))
 		zzvrt.Check("C14.L3.distinct-field-names", false)
+		zzvrt.Check("C01.L3.struct-of-colliding-siblings-compiles", false)
 		return
 	}
 	zzvrt.Check("C14.L3.distinct-field-names", true)
+	zzvrt.Check("C01.L3.struct-of-colliding-siblings-compiles", true)
 	tagsOK := true
 	for _, n := range names {
 		if strings.Count(src, "json:\""+n+"\"") != 1 {
@@ -80,7 +91,7 @@ func HarnessC14L3() {
 		}
 	}
 	zzvrt.Check("C14.L3.tags-carry-exact-name", tagsOK)
-	if famIdx == 6 {
+	if famIdx == 6 || zzvrt.Param("COMPILEONLY", 0) == 1 {
 		return
 	}
 	// all keys present with symbolic integers: accepted, and re-decoding binds by tag (each
